@@ -1040,9 +1040,10 @@ def generate(repo):
                            "    let mut img: [u8; 14] = kani::any();\n    img[5] = %d;\n"
                            "    let mut c = Cursor::new(&img[..]);\n"
                            "    let r = <insim::insim::Mso>::read_le(&mut c);\n"
-                           "    kani::cover!(r.is_ok(), \"accepted\");\n    kani::cover!(r.is_err(), \"rejected\");\n"
+                           "    %s\n"
                            "    assert!(c.position() as usize <= 14, \"C04:reader went beyond the frame\");\n"
-                           "    std::mem::forget(r);\n}\n" % (ts, ts))
+                           "    std::mem::forget(r);\n}\n" % (ts, ts,
+                              'kani::cover!(r.is_ok(), "accepted");' if ts <= 8 else 'kani::cover!(r.is_err(), "rejected: TextStart beyond the message");'))
                 index.append(dict(name="c04_mso_ts%d_body" % ts, prop="C04", tier="quick" if ts in (2, 200) else "thorough", unwind=20, cost=60,
                                   fallback_inputs=[[[0]] * 14, [[255]] * 14, [[0x41]] * 14],
                                   bounds="IS_MSO: arbitrary 14-byte body (8 message bytes) with TextStart = %d" % ts,
